@@ -863,9 +863,12 @@ def check_frame(rule, kind, root=None):
                 seq += push
                 seq += X.flat_ins(init)
                 if with_calls:
-                    if ens is not None:
-                        seq += X.flat_ins(ens)
-                    seq += X.flat_ins(builders[hname])
+                    # the bulk evaluators loop over their clauses (`->L` .. `b ->L`): whatever a clause emits runs
+                    # once per iteration, so the clause is interpreted twice there
+                    for _rep in range(2 if kind in BULK else 1):
+                        if ens is not None:
+                            seq += X.flat_ins(ens)
+                        seq += X.flat_ins(builders[hname])
                     fv = sel(fin_vs, lambda d: not d.startswith("!")) if len(fin_vs) > 1 else fin_vs[0][1]
                 else:
                     fv = sel(fin_vs, lambda d: d.startswith("!")) if len(fin_vs) > 1 else fin_vs[0][1]
